@@ -34,16 +34,16 @@ def openSpec (c : Cfg) (e : Env) : Bool × Ids × Option Active × Env :=
   match e.st.filter (fun a => a.tp.valid) with
   | some a =>
     let en := a.tp.sampled
-    (en, child, some ⟨⟨a.tp.traceId, some sid, if en then a.tp.flags % 256 else 0⟩, a.tp.spanId⟩,
+    (en, child, some ⟨⟨a.tp.traceId, some sid, if en then a.tp.flags % 256 else 0⟩, a.tp.spanId, a.state⟩,
       { e with rng := rng1 + 1, out := .spanOpen en seen :: e.out })
   | none =>
     if c.hasSampler then
       let d := c.decide e.calls
-      (d, child, some ⟨⟨traceId, some sid, if d then 1 else 0⟩, none⟩,
+      (d, child, some ⟨⟨traceId, some sid, if d then 1 else 0⟩, none, 0⟩,
         { e with rng := rng1 + 1, calls := e.calls + 1, out := .spanOpen d seen :: .sampler traceId sid d :: e.out })
     else
       -- no sampler configured: every new trace is sampled
-      (true, child, some ⟨⟨traceId, some sid, 1⟩, none⟩,
+      (true, child, some ⟨⟨traceId, some sid, 1⟩, none, 0⟩,
         { e with rng := rng1 + 1, out := .spanOpen true seen :: e.out })
 
 theorem openSpan_eq_spec (c : Cfg) (e : Env) (hb : Below e.st e.rng) : openSpan c e = openSpec c e := by
@@ -104,6 +104,8 @@ theorem restore (c : Cfg) : ∀ (p : Prog) (e : Env), (run c p e).st = e.st
       have := polls_active c cs a (openSpan c e).2.2.2
       simp [this, Frm.swap]
   | .push tp cs, e => by simp [run]
+  | .pushState ts cs, e => by simp [run]
+  | .pushBoth tp ts cs, e => by simp [run]
   | .carry cs, e => by simp [run]
   where
   restoreList (c : Cfg) : ∀ (ps : List Prog) (e : Env), (runList c ps e).st = e.st
